@@ -75,6 +75,10 @@ BASE = {
     # angle
     'rad': (Fraction(1), 'angle'),
     'deg': (_PI_F / 180, 'angle'),
+    'mrad': (Fraction(1, 1000), 'angle'),
+    'urad': (Fraction(1, 10**6), 'angle'),
+    'arcmin': (_PI_F / 10800, 'angle'),
+    'arcsec': (_PI_F / 648000, 'angle'),
     # frequency
     'Hz': (Fraction(1), 'frequency'),
     'kHz': (Fraction(1000), 'frequency'),
